@@ -18,7 +18,12 @@ Per evaluation point the monitors compare
   zero_beam / zero_receiver / zero_ions   spectrum untouched (all samples exactly 0) where n_b = 0, n_r = 0, all n_i = 0;
   accessors     which tables the models requested from the provider;
   material      BeamMaterial.emission_function(beam-space point, beam-space ray direction): sum of both models with the
-                beam direction and the point mapped into plasma space by the harness' own matrices.
+                beam direction and the point mapped into plasma space by the harness' own matrices (+ material_args: the
+                arguments that reached the tables during that call).
+  sequence_points / history   evidence counters: points evaluated as part of a structured sequence on one model instance
+                (shared coordinates, revisits, repeats - every point is judged against the reference for ITS point), and
+                evaluations made after a same-instance change (keys carry the suffix @after:<change>; the reference is the
+                formula on the final configuration, the tables those of the model's current line).
 """
 import math
 
@@ -31,8 +36,13 @@ RULE = ("random scenes: beam (H/D/T/He, 1e3..1e6 eV/amu, sigma 3 mm..0.2 m, dive
         "tables, uniform / sinusoidal / half-space profiles, flows up to 1.5x the beam speed, B uniform / varying / zero) under "
         "independent random rigid transforms (optionally nested parents); 1..4 metastable-resolved CX tables returned in "
         "random order (power-law in all 5 arguments, all-equal constants, one-hot), population and beam-emission tables "
-        "per species; 5 points per scene (diverging-field direction, free direction/point, BeamMaterial route, zero-density "
-        "points).  A case is non-trivial when at least one total was compared at a point with n_beam > 0 and n_receiver > 0 "
+        "per species; per scene either 5 independent points (diverging-field direction, free direction/point, BeamMaterial route, "
+        "zero-density points) or a 7-point sequence on the same model instances whose consecutive points share two coordinates "
+        "bit for bit and differ in the third (all three axes), with the first point revisited and repeated (in 30% of the scenes "
+        "beam and plasma frames are axis-aligned so that marching along a beam axis is marching along one plasma axis); in 30% "
+        "of the scenes one same-instance change follows (line -> other transition of the same ion / other ion, composition "
+        "re-assigned with fewer species, one species replaced) and 3 more points, the last-evaluated one first, are judged on "
+        "the final configuration.  A case is non-trivial when at least one total was compared at a point with n_beam > 0 and n_receiver > 0 "
         "(distinct = distinct fully expanded case descriptors)")
 LEVEL_TEXT = ("Exploration by runtime reference-model monitoring with argument recording: the real beam models are executed on "
               "generated scenes; totals are recomputed from the plasma state and the table definitions, and the arguments that "
@@ -51,14 +61,18 @@ ASSUMPTIONS = [
     "receiver temperature > 0, electron density/temperature > 0, beam temperature > 0, beam direction non-zero, "
     "|v_beam - v_species| >= 2% of the beam speed (otherwise E_int is rounding noise; such points are skipped and counted)",
     "neutral species get the provider's null tables (value 0); the arguments passed to those tables are not judged",
+    "after a line or composition change made through the public API the statement is read for the model's current line and "
+    "the plasma's current species (a model may keep or re-request tables; only requests for wrong keys, tables of the current "
+    "line never evaluated, wrong arguments and wrong totals are violations)",
 ]
 ASAN_MODULES = ["cherab.core.model.beam.charge_exchange", "cherab.core.model.beam.beam_emission",
                 "cherab.core.model.lineshape.beam.mse", "cherab.core.model.lineshape.gaussian"]
 ASAN = dict(cases=1500, workers=8, timecap=240)
-QUICK = dict(cases=1200, workers=2, timecap=36)
+QUICK = dict(cases=1000, workers=2, timecap=36)
 THOROUGH = dict(cases=160000, workers=16, timecap=420)
-REQUIRED = {"cx_total": 1500, "cx_mean": 1500, "cx_bounds": 1500, "cx_args": 20000, "bes_total": 1200, "bes_sum": 1200,
-            "bes_args": 5000, "zero_beam": 500, "zero_receiver": 100, "zero_ions": 30, "material": 200, "accessors": 3000}
+REQUIRED = {"cx_total": 1500, "cx_mean": 1500, "cx_bounds": 1500, "cx_args": 40000, "bes_total": 1300, "bes_sum": 1300,
+            "bes_args": 15000, "zero_beam": 600, "zero_receiver": 200, "zero_ions": 50, "material": 170, "material_args": 6500,
+            "accessors": 5000, "sequence_points": 1000, "history": 500}
 
 AMU = 1.66053906660e-27          # CODATA 2018 (the set hard-coded in cherab/core/utility/constants.pyx)
 QE = 1.602176634e-19
@@ -109,9 +123,28 @@ def _rand_rigid(rng, tmax=2.0):
 
 def _gen_profile(rng, v0, allow_wave=True):
     if allow_wave and rng.random() < 0.5:
+        kv = rng.uniform(-3, 3, size=3)
+        if rng.random() < 0.3:            # variation along one plasma axis only
+            keep = int(rng.integers(3))
+            kv = np.array([kv[i] if i == keep else 0.0 for i in range(3)])
         return {"k": "wave", "v": float(v0), "amp": float(rng.uniform(0.05, 0.8)),
-                "kv": [float(c) for c in rng.uniform(-3, 3, size=3)], "ph": float(rng.uniform(0, 2 * math.pi))}
+                "kv": [float(c) for c in kv], "ph": float(rng.uniform(0, 2 * math.pi))}
     return {"k": "const", "v": float(v0)}
+
+
+def _rand_aligned(rng, tmax=2.0):
+    """Signed axis permutation (proper rotation) + translation: coordinates map one-to-one, bit for bit."""
+    perm = [int(i) for i in rng.permutation(3)]
+    sg = [float(rng.choice([-1.0, 1.0])) for _ in range(3)]
+    R = np.zeros((3, 3))
+    for i in range(3):
+        R[i, perm[i]] = sg[i]
+    if np.linalg.det(R) < 0:
+        R[2, :] *= -1.0
+    M = np.eye(4)
+    M[:3, :3] = R
+    M[:3, 3] = rng.uniform(-tmax, tmax, size=3)
+    return M.tolist()
 
 
 def _power_spec(rng, logc_lo, logc_hi, x0s):
@@ -125,8 +158,100 @@ CX_X0 = [10.0, 0.01, 1e12, 0.5, 0.1]        # energy, temperature, density, z_ef
 B3_X0 = [10.0, 1e12, 0.01]                 # energy, density, temperature
 
 
+def _gen_cx_rates(rng):
+    nexc = int(rng.choice(4, p=[0.2, 0.3, 0.3, 0.2]))
+    mets = [1] + sorted(int(m) for m in rng.choice([2, 3, 4], size=nexc, replace=False))
+    table_kind = ["power", "power", "power", "all-equal", "one-hot", "const"][int(rng.integers(6))]
+    rates = []
+    cval = float(10 ** rng.uniform(-35, -31))
+    hot = int(rng.integers(len(mets)))
+    for j, m in enumerate(mets):
+        if table_kind == "power":
+            spec = _power_spec(rng, -35, -31, CX_X0)
+        elif table_kind == "all-equal":
+            spec = {"mode": "const", "c": cval}
+        elif table_kind == "one-hot":
+            spec = _power_spec(rng, -35, -31, CX_X0) if j == hot else {"mode": "zero"}
+        else:
+            spec = {"mode": "const", "c": float(10 ** rng.uniform(-35, -31))}
+        rates.append({"metastable": m, "spec": spec})
+    rates = [rates[int(i)] for i in rng.permutation(len(rates))]
+    return rates, mets, table_kind
+
+
+def _gen_pop_spec(rng, charge):
+    if charge == 0:
+        return {"mode": "zero"}
+    u = rng.random()
+    return (_power_spec(rng, -3, 0.5, B3_X0) if u < 0.8 else
+            {"mode": "const", "c": float(10 ** rng.uniform(-3, 1))} if u < 0.93 else {"mode": "zero"})
+
+
+def _gen_point(rng, beam, kinds=("field", "free", "material", "zero-beam"), p=(0.45, 0.2, 0.18, 0.17)):
+    length = beam["length"]
+    kind = kinds[int(rng.choice(len(kinds), p=np.array(p) / sum(p)))]
+    z = float(rng.uniform(0.02, 0.98) * length)
+    sx = math.sqrt(beam["sigma"] ** 2 + (z * math.tan(math.radians(beam["div_x"]))) ** 2)
+    sy = math.sqrt(beam["sigma"] ** 2 + (z * math.tan(math.radians(beam["div_y"]))) ** 2)
+    pt = dict(kind=kind, bp=[float(rng.uniform(-2, 2) * sx), float(rng.uniform(-2, 2) * sy), z],
+              obs=[float(c) for c in _rand_unit(rng) * 10 ** rng.uniform(-1, 1)],
+              bins=int(rng.integers(3, 120)), wpad=[float(rng.uniform(0, 0.3)), float(rng.uniform(0, 0.3))])
+    if kind == "zero-beam":
+        w = rng.random()
+        if w < 0.35:
+            pt["bp"][2] = float(-rng.uniform(1e-6, 1.0))
+        elif w < 0.7:
+            pt["bp"][2] = float(length * (1 + rng.uniform(1e-6, 0.5)))
+        elif beam["clamp_to_zero"]:
+            th = rng.uniform(0, 2 * math.pi)
+            rr = beam["clamp_sigma"] * rng.uniform(1.001, 1.5)
+            pt["bp"][0] = float(rr * sx * math.cos(th))
+            pt["bp"][1] = float(rr * sy * math.sin(th))
+        else:
+            pt["bp"][2] = float(-rng.uniform(1e-6, 1.0))
+    if kind == "free":
+        pt["pp"] = [float(c) for c in rng.uniform(-3, 3, size=3)]
+        pt["dir"] = [float(c) for c in _rand_unit(rng) * 10 ** rng.uniform(-2, 2)]
+    return pt
+
+
+def _gen_sequence(rng, beam, aligned):
+    """7 evaluation points on one model instance: consecutive points share two coordinates (bit for bit) and differ in
+    the third, for all three axes; the first point is revisited after others and then repeated immediately."""
+    length = beam["length"]
+    route = "free"
+    if aligned and rng.random() < 0.65:
+        route = "material" if rng.random() < 0.5 else "field"
+    z0 = float(rng.uniform(0.15, 0.5) * length)
+    bp0 = np.array([rng.uniform(-0.8, 0.8) * beam["sigma"], rng.uniform(-0.8, 0.8) * beam["sigma"], z0])
+    dbp = np.array([rng.uniform(0.1, 0.5) * beam["sigma"] * rng.choice([-1, 1]), rng.uniform(0.1, 0.5) * beam["sigma"] * rng.choice([-1, 1]),
+                    rng.uniform(0.03, 0.2) * length])
+    pp0 = rng.uniform(-2, 2, size=3)
+    dpp = rng.uniform(0.05, 0.6, size=3) * rng.choice([-1, 1], size=3)
+    a, b, c = [int(i) for i in rng.permutation(3)]
+    e = np.eye(3)
+    offs = [0 * e[a], e[a], 2 * e[a], 2 * e[a] + e[b], 0 * e[a], 0 * e[a], e[c]]
+    base_dir = _rand_unit(rng) * 10 ** rng.uniform(-2, 2)
+    base_obs = _rand_unit(rng) * 10 ** rng.uniform(-1, 1)
+    pts = []
+    for k, off in enumerate(offs):
+        pt = dict(kind=route, bp=[float(v) for v in (bp0 + off * dbp)], obs=[float(v) for v in base_obs],
+                  bins=int(rng.integers(3, 120)), wpad=[float(rng.uniform(0, 0.3)), float(rng.uniform(0, 0.3))], seq=k)
+        if route == "free":
+            pt["pp"] = [float(v) for v in (pp0 + off * dpp)]
+            pt["dir"] = [float(v) for v in base_dir]
+            if k == 5:        # the immediate repeat of the point looks along / moves along another direction
+                pt["dir"] = [float(v) for v in _rand_unit(rng) * 10 ** rng.uniform(-2, 2)]
+                pt["obs"] = [float(v) for v in _rand_unit(rng)]
+        pts.append(pt)
+    return pts, route
+
+
 def gen_case(rng, tier):
     case = {}
+    aligned = bool(rng.random() < 0.3)     # beam and plasma axes parallel: marching along one maps to marching along the other
+    frame = _rand_aligned if aligned else _rand_rigid
+    case["aligned"] = aligned
     # ---------------- beam ----------------
     bel = BEAM_ELEMENTS[int(rng.choice(4, p=[0.25, 0.4, 0.2, 0.15]))]
     energy = float(10 ** rng.uniform(3, 6))
@@ -137,8 +262,8 @@ def gen_case(rng, tier):
                 div_x=float(rng.uniform(0, 5)) if rng.random() < 0.7 else 0.0,
                 div_y=float(rng.uniform(0, 5)) if rng.random() < 0.7 else 0.0,
                 length=length, step=float(length / rng.uniform(4, 60)), clamp_to_zero=bool(rng.random() < 0.5),
-                clamp_sigma=float(rng.uniform(2, 6)), M=_rand_rigid(rng),
-                parent_M=_rand_rigid(rng) if rng.random() < 0.3 else None)
+                clamp_sigma=float(rng.uniform(2, 6)), M=frame(rng),
+                parent_M=frame(rng) if rng.random() < 0.3 else None)
     if rng.random() < 0.08:
         beam["power"] = 0.0
     case["beam"] = beam
@@ -181,6 +306,12 @@ def gen_case(rng, tier):
     species = [species[int(i)] for i in order]
     ions = [i for i, sp in enumerate(species) if sp["charge"] >= 1]
     receiver = int(ions[int(rng.integers(len(ions)))])
+    case["cold_species"] = None
+    if len(ions) >= 2 and rng.random() < 0.1:
+        # a cold ion species other than the receiver (T = 0, density > 0): its tables are evaluated at T = 0 and still count
+        cold = int([i for i in ions if i != receiver][int(rng.integers(len(ions) - 1))])
+        species[cold]["T"] = {"k": "zero"}
+        case["cold_species"] = cold
     r = rng.random()
     zero_kind = None
     if r < 0.06:
@@ -202,8 +333,8 @@ def gen_case(rng, tier):
     else:
         bf = [_gen_profile(rng, float(c)) for c in _rand_unit(rng) * rng.uniform(0.1, 8)]
     ne0 = sum(sp["charge"] * sp["n"].get("v", 0.0) for sp in species) or 1e18
-    case["plasma"] = dict(species=species, receiver=receiver, b_field=bf, M=_rand_rigid(rng),
-                          parent_M=_rand_rigid(rng) if rng.random() < 0.3 else None,
+    case["plasma"] = dict(species=species, receiver=receiver, b_field=bf, M=frame(rng),
+                          parent_M=frame(rng) if rng.random() < 0.3 else None,
                           ne=float(ne0), Te=float(10 ** rng.uniform(0, 4)), zero_kind=zero_kind)
     # ---------------- lines and tables ----------------
     up = int(rng.integers(2, 13))
@@ -216,23 +347,7 @@ def gen_case(rng, tier):
     if (rsp["element"], rsp["charge"] - 1, up, lo) == (bel, 0, 3, 2):
         # the CX line is the beam's own Balmer-alpha line: one transition, one wavelength in the provider
         case["cx_line"]["wavelength"] = case["bes_wavelength"]
-    nexc = int(rng.choice(4, p=[0.2, 0.3, 0.3, 0.2]))
-    mets = [1] + sorted(int(m) for m in rng.choice([2, 3, 4], size=nexc, replace=False))
-    table_kind = ["power", "power", "power", "all-equal", "one-hot", "const"][int(rng.integers(6))]
-    rates = []
-    cval = float(10 ** rng.uniform(-35, -31))
-    hot = int(rng.integers(len(mets)))
-    for j, m in enumerate(mets):
-        if table_kind == "power":
-            spec = _power_spec(rng, -35, -31, CX_X0)
-        elif table_kind == "all-equal":
-            spec = {"mode": "const", "c": cval}
-        elif table_kind == "one-hot":
-            spec = _power_spec(rng, -35, -31, CX_X0) if j == hot else {"mode": "zero"}
-        else:
-            spec = {"mode": "const", "c": float(10 ** rng.uniform(-35, -31))}
-        rates.append({"metastable": m, "spec": spec})
-    rates = [rates[int(i)] for i in rng.permutation(len(rates))]
+    rates, mets, table_kind = _gen_cx_rates(rng)
     pop, bes, stop = {}, {}, {}
     tau = 0.0 if rng.random() < 0.3 else float(rng.uniform(0, 3))
     zn = sum(sp["charge"] * sp["n"].get("v", 0.0) for sp in species)
@@ -246,12 +361,7 @@ def gen_case(rng, tier):
             stop[k] = ({"mode": "const", "c": float(tau * vb / (length * zn) * rng.uniform(0.5, 1.5))}
                        if tau > 0 and zn > 0 else {"mode": "zero"})
         for m in mets[1:]:
-            if sp["charge"] == 0:
-                pop["%d|%s" % (m, k)] = {"mode": "zero"}
-            else:
-                u = rng.random()
-                pop["%d|%s" % (m, k)] = (_power_spec(rng, -3, 0.5, B3_X0) if u < 0.8 else
-                                         {"mode": "const", "c": float(10 ** rng.uniform(-3, 1))} if u < 0.93 else {"mode": "zero"})
+            pop["%d|%s" % (m, k)] = _gen_pop_spec(rng, sp["charge"])
     case["tables"] = {
         "wavelength": {"%s|%d|%d|%d" % (rsp["element"], rsp["charge"] - 1, up, lo): case["cx_line"]["wavelength"],
                        "%s|0|3|2" % bel: case["bes_wavelength"]},
@@ -260,34 +370,66 @@ def gen_case(rng, tier):
     case["table_kind"] = table_kind
     case["attach"] = "models" if rng.random() < 0.6 else "direct"
     # ---------------- points ----------------
-    pts = []
-    for _ in range(5):
-        u = rng.random()
-        kind = "field" if u < 0.45 else "free" if u < 0.65 else "material" if u < 0.83 else "zero-beam"
-        z = float(rng.uniform(0.02, 0.98) * length)
-        sx = math.sqrt(beam["sigma"] ** 2 + (z * math.tan(math.radians(beam["div_x"]))) ** 2)
-        sy = math.sqrt(beam["sigma"] ** 2 + (z * math.tan(math.radians(beam["div_y"]))) ** 2)
-        p = dict(kind=kind, bp=[float(rng.uniform(-2, 2) * sx), float(rng.uniform(-2, 2) * sy), z],
-                 obs=[float(c) for c in _rand_unit(rng) * 10 ** rng.uniform(-1, 1)],
-                 bins=int(rng.integers(3, 120)), wpad=[float(rng.uniform(0, 0.3)), float(rng.uniform(0, 0.3))])
-        if kind == "zero-beam":
-            w = rng.random()
-            if w < 0.35:
-                p["bp"][2] = float(-rng.uniform(1e-6, 1.0))
-            elif w < 0.7:
-                p["bp"][2] = float(length * (1 + rng.uniform(1e-6, 0.5)))
-            elif beam["clamp_to_zero"]:
-                th = rng.uniform(0, 2 * math.pi)
-                rr = beam["clamp_sigma"] * rng.uniform(1.001, 1.5)
-                p["bp"][0] = float(rr * sx * math.cos(th))
-                p["bp"][1] = float(rr * sy * math.sin(th))
-            else:
-                p["bp"][2] = float(-rng.uniform(1e-6, 1.0))
-        if kind == "free":
-            p["pp"] = [float(c) for c in rng.uniform(-3, 3, size=3)]
-            p["dir"] = [float(c) for c in _rand_unit(rng) * 10 ** rng.uniform(-2, 2)]
-        pts.append(p)
+    if rng.random() < 0.45:
+        pts, route = _gen_sequence(rng, beam, aligned)
+        case["plan"] = "sequence-" + route
+    else:
+        pts = [_gen_point(rng, beam) for _ in range(5)]
+        case["plan"] = "random"
     case["points"] = pts
+    # ---------------- same-instance history: one change after the first evaluations, then evaluate again ----------------
+    case["history"] = None
+    case["points2"] = []
+    if rng.random() < 0.3:
+        ops = ["line-same-ion", "species-replaced"]
+        if len(ions) >= 2:
+            ops.append("line-other-ion")
+        if len(species) >= 2:
+            ops += ["composition-smaller", "composition-smaller"]
+        op = ops[int(rng.integers(len(ops)))]
+        h = dict(op=op)
+        if op in ("line-same-ion", "line-other-ion"):
+            r2 = receiver if op == "line-same-ion" else int([i for i in ions if i != receiver][int(rng.integers(len(ions) - 1))])
+            sp2 = species[r2]
+            while True:
+                up2 = int(rng.integers(2, 13))
+                lo2 = int(rng.integers(1, up2))
+                if not (r2 == receiver and (up2, lo2) == (up, lo)):
+                    break
+            rates2, mets2, kind2 = _gen_cx_rates(rng)
+            wl2 = float(rng.uniform(200, 900))
+            if (sp2["element"], sp2["charge"] - 1, up2, lo2) == (bel, 0, 3, 2):
+                wl2 = case["bes_wavelength"]
+            h.update(receiver=r2, line=dict(element=sp2["element"], charge=sp2["charge"] - 1, transition=[up2, lo2], wavelength=wl2),
+                     table_kind=kind2)
+            case["tables"]["cx_alt"] = {"donor": bel, "receiver": sp2["element"], "receiver_charge": sp2["charge"],
+                                        "transition": [up2, lo2], "rates": rates2}
+            case["tables"]["wavelength"]["%s|%d|%d|%d" % (sp2["element"], sp2["charge"] - 1, up2, lo2)] = wl2
+            for sp in species:
+                k = "%s|%d" % (sp["element"], sp["charge"])
+                for m in mets2[1:]:
+                    if "%d|%s" % (m, k) not in pop:
+                        pop["%d|%s" % (m, k)] = _gen_pop_spec(rng, sp["charge"])
+        elif op == "composition-smaller":
+            others = [i for i in range(len(species)) if i != receiver]
+            nrem = int(rng.integers(1, len(others) + 1))
+            h.update(remove=sorted(int(i) for i in rng.choice(others, size=nrem, replace=False)), recreate=bool(rng.random() < 0.5))
+        else:
+            idx = int(rng.integers(len(species)))
+            sp = species[idx]
+            n0 = 10 ** rng.uniform(16, 21) if sp["charge"] >= 1 else 10 ** rng.uniform(14, 19)
+            if flows:
+                v = _rand_unit(rng) * vb * rng.uniform(0, 1.5)
+                vnew = [_gen_profile(rng, float(cc), allow_wave=not uniform) for cc in v]
+            else:
+                vnew = [{"k": "const", "v": 0.0}] * 3
+            h.update(index=idx, n=_gen_profile(rng, n0, allow_wave=not uniform),
+                     T=_gen_profile(rng, 10 ** rng.uniform(-1, 4), allow_wave=not uniform), v=vnew,
+                     via="add" if rng.random() < 0.6 else "set")
+        case["history"] = h
+        # after the change: the most recently evaluated point again, then new ones
+        last = dict(pts[-1])
+        case["points2"] = [last] + [_gen_point(rng, beam, p=(0.45, 0.25, 0.2, 0.1)) for _ in range(2)]
     return case
 
 
@@ -369,6 +511,65 @@ def fixed_cases(tier):
         scene([sp("deuterium", 1, 0, 2000.0), sp("carbon", 6, 0, 1800.0)], 1, [1, 2], "power", None, "direct"),
         scene([sp("deuterium", 1, 5e19, 2000.0), sp("carbon", 6, 5e17, 1800.0)], 1, [1, 2], "power", None, "models", beam_over=dict(power=0.0)),
     ]
+    # ---- evaluation-point sequences on one model instance (frames are axis-aligned in these scenes: marching along a beam
+    #      axis is marching along one plasma axis with the other two plasma coordinates bit-identical) ----
+    def wave(v, kv, amp=0.5, ph=0.3):
+        return {"k": "wave", "v": v, "amp": amp, "kv": list(kv), "ph": ph}
+
+    def wsp(el, ch, n, kv, T):
+        return dict(element=el, charge=ch, n=wave(n, kv), T=wave(T, kv[::-1], amp=0.3), v=[{"k": "const", "v": 0.0}] * 3)
+
+    def march(kind):
+        seq = [(0.01, -0.02, 0.5), (0.01, -0.02, 0.9), (0.01, -0.02, 1.3), (0.03, -0.02, 1.3), (0.03, 0.01, 1.3), (0.01, -0.02, 0.5),
+               (0.01, -0.02, 0.5), (0.01, 0.02, 0.5)]
+        return [dict(kind=kind, bp=list(bp), obs=[0.3, -0.5, 0.8], bins=30, wpad=[0.1, 0.1], seq=k) for k, bp in enumerate(seq)]
+
+    for attach, kind, plasma_M in (("models", "material", [[0, 1, 0, 0.1], [0, 0, 1, 0.0], [1, 0, 0, 0.2], [0, 0, 0, 1]]),
+                                   ("direct", "field", [[1, 0, 0, 0.1], [0, 0, -1, 0], [0, 1, 0, 0.2], [0, 0, 0, 1]]),
+                                   ("models", "field", [[0, 0, 1, -0.1], [1, 0, 0, 0.3], [0, 1, 0, 0.2], [0, 0, 0, 1]])):
+        c = scene([wsp("deuterium", 1, 5e19, (1.1, 0.7, 1.3), 2000.0), wsp("carbon", 6, 2e18, (-0.9, 1.2, 0.8), 1800.0),
+                   wsp("neon", 10, 4e17, (0.5, -1.4, -1.1), 900.0)], 1, [1, 2, 3], "power",
+                  [wave(1.0, (0.4, 0.9, -0.7)), {"k": "const", "v": 2.5}, wave(0.3, (1.0, 1.0, 1.0))], attach)
+        c["plasma"]["M"] = plasma_M
+        c["aligned"] = True
+        c["plan"] = "sequence-" + kind
+        c["points"] = march(kind)
+        out.append(c)
+
+    # ---- same-instance histories: one change after the first evaluations, judged on the final configuration ----
+    def with_history(c, h, alt=None):
+        c["history"] = h
+        c["points2"] = [dict(c["points"][0]), dict(c["points"][1]), dict(c["points"][-1])]
+        if alt is not None:
+            c["tables"]["cx_alt"] = alt
+            c["tables"]["wavelength"]["%s|%d|%d|%d" % (h["line"]["element"], h["line"]["charge"], h["line"]["transition"][0],
+                                                       h["line"]["transition"][1])] = h["line"]["wavelength"]
+            for s_ in c["plasma"]["species"]:
+                for r_ in alt["rates"]:
+                    k = "%d|%s|%d" % (r_["metastable"], s_["element"], s_["charge"])
+                    if r_["metastable"] > 1 and k not in c["tables"]["pop"]:
+                        c["tables"]["pop"][k] = pw(0.05 * r_["metastable"], B3_X0, [0.1, 0.2, -0.3]) if s_["charge"] > 0 else {"mode": "zero"}
+        return c
+
+    def base():
+        return scene([sp("deuterium", 1, 5e19, 2000.0), sp("carbon", 6, 5e17, 1800.0), sp("helium", 2, 2e18, 1500.0),
+                      sp("neon", 10, 1e17, 900.0)], 1, [1, 2], "power",
+                     [{"k": "const", "v": 0.0}, {"k": "const", "v": 2.5}, {"k": "const", "v": 0.3}], "models")
+
+    alt_rates = [{"metastable": 3, "spec": pw(7e-34, CX_X0, [-0.2, 0.3, 0.1, -0.3, 0.2])},
+                 {"metastable": 1, "spec": pw(2e-32, CX_X0, [0.25, 0.1, -0.2, 0.2, 0.15])}]
+    out.append(with_history(base(), dict(op="line-same-ion", receiver=1, table_kind="power",
+                                         line=dict(element="carbon", charge=5, transition=[10, 9], wavelength=1070.3)),
+                            alt={"donor": "deuterium", "receiver": "carbon", "receiver_charge": 6, "transition": [10, 9], "rates": alt_rates}))
+    out.append(with_history(base(), dict(op="line-other-ion", receiver=3, table_kind="power",
+                                         line=dict(element="neon", charge=9, transition=[11, 10], wavelength=524.9)),
+                            alt={"donor": "deuterium", "receiver": "neon", "receiver_charge": 10, "transition": [11, 10], "rates": alt_rates}))
+    out.append(with_history(base(), dict(op="composition-smaller", remove=[3], recreate=False)))
+    out.append(with_history(base(), dict(op="composition-smaller", remove=[0, 2], recreate=True)))
+    out.append(with_history(base(), dict(op="species-replaced", index=1, n={"k": "const", "v": 3e18}, T={"k": "const", "v": 700.0},
+                                         v=[{"k": "const", "v": 1e5}, {"k": "const", "v": 0.0}, {"k": "const", "v": -2e5}], via="add")))
+    out.append(with_history(base(), dict(op="species-replaced", index=0, n={"k": "const", "v": 2e19}, T={"k": "const", "v": 300.0},
+                                         v=[{"k": "const", "v": 0.0}] * 3, via="set")))
     return out
 
 
@@ -422,12 +623,18 @@ def build_scene(case):
             return Vector3D(*[prof(s, 0, 0, 0) for s in vs])
         return lambda x, y, z, vs=vs: Vector3D(prof(vs[0], x, y, z), prof(vs[1], x, y, z), prof(vs[2], x, y, z))
 
-    comp = []
-    sc.elements = []
-    for s in pc["species"]:
+    def make_species(s):
         el = getattr(elements, s["element"])
-        sc.elements.append(el)
-        comp.append(Species(el, s["charge"], Maxwellian(f3(s["n"]), f3(s["T"]), v3(s["v"]), el.atomic_weight * AMU)))
+        return Species(el, s["charge"], Maxwellian(f3(s["n"]), f3(s["T"]), v3(s["v"]), el.atomic_weight * AMU))
+
+    def make_line(cl):
+        return Line(getattr(elements, cl["element"]), cl["charge"], tuple(cl["transition"]))
+
+    sc.make_species = make_species
+    sc.make_line = make_line
+    sc.weight = lambda name: getattr(elements, name).atomic_weight
+    comp = [make_species(s) for s in pc["species"]]
+    sc.species_objs = comp
     plasma.composition = comp
     plasma.electron_distribution = Maxwellian(pc["ne"], pc["Te"], Vector3D(0, 0, 0), 9.1093837015e-31)
     plasma.b_field = None if pc["b_field"] is None else v3(pc["b_field"])
@@ -452,10 +659,7 @@ def build_scene(case):
     sc.beam = beam
     sc.beam_weight = bel.atomic_weight
 
-    cl = case["cx_line"]
-    rel = getattr(elements, cl["element"])
-    sc.receiver_weight = rel.atomic_weight
-    cx_line = Line(rel, cl["charge"], tuple(cl["transition"]))
+    cx_line = make_line(case["cx_line"])
     bes_line = Line(bel, 0, (3, 2)) if case["bes"] else None
     if case["attach"] == "models":
         sc.cx = BeamCXLine(cx_line)
@@ -479,16 +683,15 @@ def build_scene(case):
 # oracle helpers
 # ----------------------------------------------------------------------------------------------
 
-def _state(case, pp):
+def _state(species, b_field, pp):
     """Plasma state at plasma-space point pp from the profile specs (no cherab)."""
     x, y, z = pp
     st = []
-    for s in case["plasma"]["species"]:
+    for s in species:
         st.append(dict(Z=int(s["charge"]), n=prof(s["n"], x, y, z), T=prof(s["T"], x, y, z),
                        v=np.array([prof(c, x, y, z) for c in s["v"]]), key="%s|%d" % (s["element"], s["charge"]),
                        element=s["element"]))
-    bf = case["plasma"]["b_field"]
-    B = np.zeros(3) if bf is None else np.array([prof(c, x, y, z) for c in bf])
+    B = np.zeros(3) if b_field is None else np.array([prof(c, x, y, z) for c in b_field])
     return st, B
 
 
@@ -520,26 +723,71 @@ RT_ARG = 1e-9      # arguments other than energies (profiles are re-evaluated at
 RT_E = 1e-7        # interaction energies (two CODATA sets inside cherab)
 RT_TOT = 1e-8      # totals against the independent oracle
 RT_MEAN = 1e-10    # totals against the weighted mean / charged sum of the returned values
+UNDERFLOW_NB = 1e-200   # beam densities (m^-3) below this are not judged (products with 1e-35 W m^3 coefficients are subnormal)
+
+
+def final_config(case):
+    """Configuration (species specs, receiver index, CX table entry, CX line) after the case's history step."""
+    pc = case["plasma"]
+    species = [dict(s) for s in pc["species"]]
+    receiver = pc["receiver"]
+    cx_name, line = "cx", case["cx_line"]
+    h = case.get("history")
+    if h:
+        if h["op"] in ("line-same-ion", "line-other-ion"):
+            receiver, cx_name, line = h["receiver"], "cx_alt", h["line"]
+        elif h["op"] == "composition-smaller":
+            keep = [i for i in range(len(species)) if i not in h["remove"]]
+            receiver = keep.index(receiver)
+            species = [species[i] for i in keep]
+        elif h["op"] == "species-replaced":
+            species[h["index"]] = dict(species[h["index"]], n=h["n"], T=h["T"], v=h["v"])
+    return dict(species=species, receiver=receiver, cx_name=cx_name, line=line)
+
+
+def apply_history(case, sc):
+    """The same change on the live objects, through the public API only."""
+    h = case["history"]
+    op = h["op"]
+    if op in ("line-same-ion", "line-other-ion"):
+        sc.cx.line = sc.make_line(h["line"])
+    elif op == "composition-smaller":
+        keep = [i for i in range(len(sc.species_objs)) if i not in h["remove"]]
+        if h["recreate"]:
+            objs = [sc.make_species(case["plasma"]["species"][i]) for i in keep]
+        else:
+            objs = [sc.species_objs[i] for i in keep]
+        sc.plasma.composition = objs
+        sc.species_objs = objs
+    elif op == "species-replaced":
+        spec = dict(case["plasma"]["species"][h["index"]], n=h["n"], T=h["T"], v=h["v"])
+        new = sc.make_species(spec)
+        objs = list(sc.species_objs)
+        objs[h["index"]] = new
+        if h["via"] == "add":
+            sc.plasma.composition.add(new)
+        else:
+            sc.plasma.composition = objs
+        sc.species_objs = objs
+    else:
+        raise ValueError(op)
 
 
 def run_case(case, ctx):
-    from raysect.core import AffineMatrix3D, Point3D, Vector3D
-    from raysect.optical import Spectrum, Ray
-    from vf.mock_c05 import rate_value
-
     sc = build_scene(case)
-    ad, beam, plasma = sc.ad, sc.beam, sc.plasma
     bc, pc = case["beam"], case["plasma"]
     species = pc["species"]
-    rcv = pc["receiver"]
-    neutrals_listed = any(s["charge"] == 0 for s in species)
     mets = sorted(int(r["metastable"]) for r in case["tables"]["cx"]["rates"])
-    cxspec = {int(r["metastable"]): r["spec"] for r in case["tables"]["cx"]["rates"]}
     ctx.cls("attach=" + case["attach"])
     ctx.cls("metastables=%d" % len(mets))
     ctx.cls("tables=" + case["table_kind"])
     ctx.cls("ions=%d" % sum(1 for s in species if s["charge"] >= 1))
-    if neutrals_listed:
+    ctx.cls("plan=" + case.get("plan", "random"))
+    if case.get("aligned"):
+        ctx.cls("aligned-frames")
+    if case.get("cold_species") is not None:
+        ctx.cls("cold-ion-species(T=0)")
+    if any(s["charge"] == 0 for s in species):
         ctx.cls("neutrals-in-composition")
     if pc["zero_kind"]:
         ctx.cls(pc["zero_kind"])
@@ -556,16 +804,49 @@ def run_case(case, ctx):
     if bc["power"] == 0.0:
         ctx.cls("beam-power-zero")
 
+    cfg = dict(species=species, receiver=pc["receiver"], cx_name="cx", line=case["cx_line"], ev0=0, tag="", mon="")
+    _eval_points(case, ctx, sc, cfg, case["points"])
+    h = case.get("history")
+    if h:
+        ctx.cls("history=" + h["op"])
+        ev0 = len(sc.ad.events)
+        apply_history(case, sc)
+        cfg = dict(final_config(case), ev0=ev0, tag="@after:" + h["op"], mon="history")
+        _eval_points(case, ctx, sc, cfg, case["points2"])
+
+
+def _eval_points(case, ctx, sc, cfg, points):
+    from raysect.core import AffineMatrix3D, Point3D, Vector3D
+    from raysect.optical import Spectrum, Ray
+    from vf.mock_c05 import rate_value
+
+    ad, beam = sc.ad, sc.beam
+    bc, pc = case["beam"], case["plasma"]
+    species = cfg["species"]
+    rcv = cfg["receiver"]
+    tag = cfg["tag"]
+    entry = case["tables"][cfg["cx_name"]]
+    mets = sorted(int(r["metastable"]) for r in entry["rates"])
+    cxspec = {int(r["metastable"]): r["spec"] for r in entry["rates"]}
     speed_b = math.sqrt(2.0 * bc["energy"] * QE / AMU)
     R_b2p = sc.b2p[:3, :3]
-    lam_cx = case["cx_line"]["wavelength"]
+    lam_cx = cfg["line"]["wavelength"]
     lam_bes = case["bes_wavelength"]
+    receiver_weight = sc.weight(cfg["line"]["element"])
 
-    for ip, pt in enumerate(case["points"]):
+    def mon(name):
+        # evaluations after a history step are also counted under the 'history' monitor
+        if cfg["mon"]:
+            ctx.mon(cfg["mon"])
+        return name
+
+    for ip, pt in enumerate(points):
         kind = pt["kind"]
         if kind == "material" and sc.material is None:
             kind = "field"
         ctx.cls("point=" + kind)
+        if "seq" in pt:
+            ctx.mon("sequence_points")
         bp = [float(c) for c in pt["bp"]]
         # ---- recorded beam state -------------------------------------------------------------
         n_b = float(beam.density(bp[0], bp[1], bp[2]))
@@ -577,11 +858,8 @@ def run_case(case, ctx):
             d_b = beam.direction(bp[0], bp[1], bp[2])
             dvec = R_b2p @ np.array([d_b.x, d_b.y, d_b.z])
         obs = np.array(pt["obs"], dtype=float)
-        if kind == "material":
-            obs_p = R_b2p @ obs           # the ray direction is given in beam space
-        else:
-            obs_p = obs
-        st, B = _state(case, pp)
+        obs_p = R_b2p @ obs if kind == "material" else obs      # the ray direction is given in beam space
+        st, B = _state(species, pc["b_field"], pp)
         Bmag = float(np.linalg.norm(B))
         vb_vec = dvec / np.linalg.norm(dvec) * speed_b
         ions = [s for s in st if s["Z"] >= 1]
@@ -597,7 +875,7 @@ def run_case(case, ctx):
             s["rel"] = float(np.linalg.norm(vb_vec - s["v"])) / speed_b
         # ---- spectral windows (harness only: must contain the whole line whatever the shift) --------
         vmax = max([float(np.linalg.norm(s["v"])) for s in st] + [speed_b])
-        sig_cx = math.sqrt(max(T_r, 0.0) * QE / (sc.receiver_weight * AMU)) * lam_cx / CLIGHT
+        sig_cx = math.sqrt(max(T_r, 0.0) * QE / (receiver_weight * AMU)) * lam_cx / CLIGHT
         sig_bes = math.sqrt(bc["temperature"] * QE / (sc.beam_weight * AMU)) * lam_bes / CLIGHT
         stark = STARK * speed_b * Bmag
         w_cx = _window(lam_cx, vmax, sig_cx, 0.0, pt["wpad"])
@@ -610,6 +888,13 @@ def run_case(case, ctx):
         V_o = Vector3D(*[float(c) for c in obs_p])
 
         near_comoving = [s for s in ions if s["n"] > 0 and s["rel"] < 0.02]
+        if 0.0 < n_b < UNDERFLOW_NB:
+            # a beam attenuated by hundreds of e-foldings: the emission is a subnormal number, relative comparisons are noise
+            ctx.skip("beam density in the floating-point underflow range")
+            continue
+        J = dict(case=case, ctx=ctx, ad=ad, cfg=cfg, st=st, rcv=rcv, n_b=n_b, n_r=n_r, n_ions=n_ions, n_all=n_all,
+                 neutral_density=neutral_density, z2n=z2n, zn=zn, Bmag=Bmag, mets=mets, cxspec=cxspec, rate_value=rate_value,
+                 kind=kind, seq=pt.get("seq"))
 
         # ======================================= material route ==================================
         if kind == "material":
@@ -622,8 +907,8 @@ def run_case(case, ctx):
                                                 AffineMatrix3D(), AffineMatrix3D())
             tot, samples = _integral(out)
             if n_b == 0.0:
-                ctx.check(bool(np.all(samples == 0.0)), "material:nonzero-at-zero-beam-density",
-                          "BeamMaterial.emission_function adds emission where Beam.density is exactly 0", monitor="zero_beam",
+                ctx.check(bool(np.all(samples == 0.0)), "material:nonzero-at-zero-beam-density" + tag,
+                          "BeamMaterial.emission_function adds emission where Beam.density is exactly 0", monitor=mon("zero_beam"),
                           total=tot, bp=bp)
                 continue
             if near_comoving or T_r <= 0:
@@ -637,11 +922,15 @@ def run_case(case, ctx):
                 want = min((c + want_bes for c in cands), key=lambda w: abs(tot - w))
             else:
                 want = want_bes
-            ctx.close(tot, want, "material:total", "BeamMaterial.emission_function total differs from CX + BES evaluated with the beam "
-                      "direction / point / observation direction mapped into plasma space", rtol=RT_TOT, monitor="material",
-                      n_b=n_b, n_r=n_r, bp=bp)
+            ctx.close(tot, want, "material:total" + tag, "BeamMaterial.emission_function total differs from CX + BES evaluated with the "
+                      "beam direction / point / observation direction mapped into plasma space, for the point it was called with",
+                      rtol=RT_TOT, monitor=mon("material"), n_b=n_b, n_r=n_r, bp=bp, seq=pt.get("seq"))
+            # the arguments handed to the tables during this call must be those of this point
             if n_r > 0:
+                _judge_cx_args(J, total=None)
                 ctx.nontrivial()
+            if sc.bes is not None and n_ions > 0:
+                _judge_bes_args(J)
             continue
 
         # ======================================= CX, direct call =================================
@@ -649,21 +938,21 @@ def run_case(case, ctx):
         ad.clear_calls()
         out = sc.cx.emission(P_b, P_p, V_d, V_o, spec)
         tot, samples = _integral(out)
-        _check_cx_accessors(case, ad, ctx)
+        _check_cx_accessors(case, ad, ctx, cfg, entry)
         if n_b == 0.0:
-            ctx.check(bool(np.all(samples == 0.0)), "cx:nonzero-at-zero-beam-density",
-                      "BeamCXLine.emission adds emission where Beam.density is exactly 0", monitor="zero_beam", total=tot, bp=bp)
+            ctx.check(bool(np.all(samples == 0.0)), "cx:nonzero-at-zero-beam-density" + tag,
+                      "BeamCXLine.emission adds emission where Beam.density is exactly 0", monitor=mon("zero_beam"), total=tot, bp=bp)
         elif n_r == 0.0:
-            ctx.check(bool(np.all(samples == 0.0)), "cx:nonzero-at-zero-receiver-density",
-                      "BeamCXLine.emission adds emission where the receiver density is exactly 0", monitor="zero_receiver",
+            ctx.check(bool(np.all(samples == 0.0)), "cx:nonzero-at-zero-receiver-density" + tag,
+                      "BeamCXLine.emission adds emission where the receiver density is exactly 0", monitor=mon("zero_receiver"),
                       total=tot, n_b=n_b)
         elif T_r <= 0:
             ctx.skip("receiver temperature <= 0 (statement silent)")
         elif near_comoving:
             ctx.skip("near-comoving species (E_int is rounding noise)")
         else:
-            _judge_cx(case, ctx, ad, st, rcv, n_b, n_r, n_ions, n_all, neutral_density, z2n, zn, Bmag, mets, cxspec, tot,
-                      rate_value, kind)
+            mon("")
+            _judge_cx_args(J, total=tot)
 
         # ======================================= BES, direct call ================================
         if sc.bes is None:
@@ -672,18 +961,19 @@ def run_case(case, ctx):
         ad.clear_calls()
         out = sc.bes.emission(P_b, P_p, V_d, V_o, spec)
         tot, samples = _integral(out)
-        _check_bes_accessors(case, ad, ctx)
+        _check_bes_accessors(case, ad, ctx, cfg)
         if n_b == 0.0:
-            ctx.check(bool(np.all(samples == 0.0)), "bes:nonzero-at-zero-beam-density",
-                      "BeamEmissionLine.emission adds emission where Beam.density is exactly 0", monitor="zero_beam", total=tot, bp=bp)
+            ctx.check(bool(np.all(samples == 0.0)), "bes:nonzero-at-zero-beam-density" + tag,
+                      "BeamEmissionLine.emission adds emission where Beam.density is exactly 0", monitor=mon("zero_beam"), total=tot, bp=bp)
         elif n_ions == 0.0:
-            ctx.check(bool(np.all(samples == 0.0)), "bes:nonzero-at-zero-ion-density",
-                      "BeamEmissionLine.emission adds emission where every ion density is exactly 0", monitor="zero_ions",
+            ctx.check(bool(np.all(samples == 0.0)), "bes:nonzero-at-zero-ion-density" + tag,
+                      "BeamEmissionLine.emission adds emission where every ion density is exactly 0", monitor=mon("zero_ions"),
                       total=tot, n_b=n_b)
         elif near_comoving:
             ctx.skip("near-comoving species (E_int is rounding noise)")
         else:
-            _judge_bes(case, ctx, ad, st, n_b, z2n, tot, rate_value, kind)
+            mon("")
+            _judge_bes_args(J, total=tot)
 
 
 # ----------------------------------------------------------------------------------------------
@@ -726,57 +1016,81 @@ def _bes_oracle(case, st, n_b, z2n, rate_value):
     return n_b * tot / (4.0 * math.pi)
 
 
-def _check_cx_accessors(case, ad, ctx):
-    cx = case["tables"]["cx"]
-    reqs = [e for e in ad.events if e[0] == "beam_cx_pec"]
-    want = ("beam_cx_pec", cx["donor"], cx["receiver"], int(cx["receiver_charge"]), tuple(cx["transition"]))
-    ctx.check(len(reqs) >= 1 and all(e == want for e in reqs), "cx:accessor:beam_cx_pec-wrong-key",
-              "BeamCXLine requested beam_cx_pec for something other than (beam element, line element, line charge + 1, transition)",
-              monitor="accessors", requested=reqs[:3], expected=want)
-    mets = sorted(int(r["metastable"]) for r in cx["rates"])
-    want_pop = {("beam_population_rate", cx["donor"], m, s["element"], int(s["charge"]))
-                for m in mets if m != 1 for s in case["plasma"]["species"]}
-    got_pop = {e for e in ad.events if e[0] == "beam_population_rate"}
-    ions_missing = {e for e in want_pop - got_pop if e[4] >= 1}
-    extra = got_pop - want_pop
-    ctx.check(not ions_missing and not extra, "cx:accessor:beam_population_rate-wrong-keys",
-              "BeamCXLine did not request the population tables of exactly (beam element, excited metastable, species) pairs",
-              monitor="accessors", missing=sorted(ions_missing)[:4], unexpected=sorted(extra)[:4])
+def _check_cx_accessors(case, ad, ctx, cfg, entry):
+    """Requests made since the last configuration change must be for the current line / species; the current line's
+    tables must have been requested at some time."""
+    tag = cfg["tag"]
+    since = ad.events[cfg["ev0"]:]
+    want = ("beam_cx_pec", entry["donor"], entry["receiver"], int(entry["receiver_charge"]), tuple(entry["transition"]))
+    reqs = [e for e in since if e[0] == "beam_cx_pec"]
+    ever = any(e == want for e in ad.events)
+    ctx.check(ever and all(e == want for e in reqs), "cx:accessor:beam_cx_pec-wrong-key" + tag,
+              "BeamCXLine requested beam_cx_pec for something other than (beam element, line element, line charge + 1, transition) of "
+              "its current line, or never requested it", monitor="accessors", requested=reqs[:3], expected=want)
+    mets = sorted(int(r["metastable"]) for r in entry["rates"])
+    want_pop = {("beam_population_rate", entry["donor"], m, s["element"], int(s["charge"]))
+                for m in mets if m != 1 for s in cfg["species"]}
+    got_since = {e for e in since if e[0] == "beam_population_rate"}
+    got_ever = {e for e in ad.events if e[0] == "beam_population_rate"}
+    ions_missing = {e for e in want_pop - got_ever if e[4] >= 1}
+    extra = got_since - want_pop
+    ctx.check(not ions_missing and not extra, "cx:accessor:beam_population_rate-wrong-keys" + tag,
+              "BeamCXLine did not request the population tables of exactly (beam element, excited metastable, species) pairs of the "
+              "current line and composition", monitor="accessors", missing=sorted(ions_missing)[:4], unexpected=sorted(extra)[:4])
 
 
-def _check_bes_accessors(case, ad, ctx):
+def _check_bes_accessors(case, ad, ctx, cfg):
     t = case["tables"]
-    want = {("beam_emission_pec", t["beam_element"], s["element"], int(s["charge"]), (3, 2)) for s in case["plasma"]["species"]}
-    got = {e for e in ad.events if e[0] == "beam_emission_pec"}
-    ions_missing = {e for e in want - got if e[3] >= 1}
-    extra = got - want
-    ctx.check(not ions_missing and not extra, "bes:accessor:beam_emission_pec-wrong-keys",
-              "BeamEmissionLine did not request the emission tables of exactly (beam element, species, (3,2)) for the plasma species",
-              monitor="accessors", missing=sorted(ions_missing)[:4], unexpected=sorted(extra)[:4])
+    since = ad.events[cfg["ev0"]:]
+    want = {("beam_emission_pec", t["beam_element"], s["element"], int(s["charge"]), (3, 2)) for s in cfg["species"]}
+    got_since = {e for e in since if e[0] == "beam_emission_pec"}
+    got_ever = {e for e in ad.events if e[0] == "beam_emission_pec"}
+    ions_missing = {e for e in want - got_ever if e[3] >= 1}
+    extra = got_since - want
+    ctx.check(not ions_missing and not extra, "bes:accessor:beam_emission_pec-wrong-keys" + cfg["tag"],
+              "BeamEmissionLine did not request the emission tables of exactly (beam element, species, (3,2)) for the species of the "
+              "current composition", monitor="accessors", missing=sorted(ions_missing)[:4], unexpected=sorted(extra)[:4])
 
 
-def _judge_cx(case, ctx, ad, st, rcv, n_b, n_r, n_ions, n_all, neutral_density, z2n, zn, Bmag, mets, cxspec, tot,
-              rate_value, kind):
-    r = st[rcv]
+def _judge_cx_args(J, total):
+    """Arguments that reached the CX / population tables during the call just made (and, when `total` is given, the
+    direct-call totals).  total=None: BeamMaterial route, only the arguments are judged here."""
+    case, ctx, ad, cfg, st, rcv = J["case"], J["ctx"], J["ad"], J["cfg"], J["st"], J["rcv"]
+    n_b, n_r, n_ions, n_all, neutral_density = J["n_b"], J["n_r"], J["n_ions"], J["n_all"], J["neutral_density"]
+    z2n, zn, Bmag, mets, cxspec, rate_value, kind = J["z2n"], J["zn"], J["Bmag"], J["mets"], J["cxspec"], J["rate_value"], J["kind"]
+    tag = cfg["tag"]
+    margs = "cx_args" if total is not None else "material_args"
     # ---- which tables were evaluated with what ---------------------------------------------------
     calls = {m: [] for m in mets}
-    for lst in ad.cx_rates:
+    foreign = 0
+    for name, lst in ad.cx_rates:
         for m, rate in lst:
-            calls[m].extend(rate.calls)
-    decoy_calls = sum(len(d.calls) for d in ad.decoys)
+            if name == cfg["cx_name"]:
+                calls[m].extend(rate.calls)
+            else:
+                foreign += len(rate.calls)
+    decoy_calls = sum(len(d.calls) for d in ad.decoys if d.key[0] in ("cx-decoy", "pop-decoy"))
     if decoy_calls:
-        ctx.viol("cx:decoy-table-evaluated", "a table that the provider handed out for a wrong request was evaluated", n=decoy_calls)
+        ctx.viol("cx:decoy-table-evaluated" + tag, "a table that the provider handed out for a wrong request was evaluated", n=decoy_calls)
     missing = [m for m in mets if not calls[m]]
-    if not ctx.check(not missing, "cx:table-not-evaluated", "a metastable-resolved BeamCXPEC returned by the provider was never "
-                     "evaluated although n_beam > 0 and n_receiver > 0", monitor="cx_args", metastables=missing, all=mets):
+    if not ctx.check(not missing, "cx:table-not-evaluated" + tag, "a metastable-resolved BeamCXPEC of the model's current line was never "
+                     "evaluated although n_beam > 0 and n_receiver > 0", monitor=margs, metastables=missing, all=mets,
+                     calls_on_tables_of_another_line=foreign):
+        if total is not None:
+            # the emission value itself is still judged (either density reading accepted)
+            cands = [_cx_oracle(case, st, rcv, n_b, nd, z2n, zn, Bmag, mets, cxspec, rate_value)[0]
+                     for nd in ([n_ions, n_all] if neutral_density > 0 else [n_ions])]
+            ctx.close(total, min(cands, key=lambda w: abs(total - w)), "cx:total" + tag, "wavelength-integrated BeamCXLine emission "
+                      "differs from (1/4pi) n_b n_r (q1 + sum k q)/(1 + sum k) evaluated from the plasma state and the tables of the "
+                      "model's current line", rtol=RT_TOT, monitor="cx_total", n_b=n_b, n_r=n_r, point_kind=kind, seq=J["seq"])
         return
     # density reading
     got_dens = calls[mets[0]][0][0][2]
     if neutral_density > 0:
         ok_all = abs(got_dens - n_all) <= RT_ARG * n_all
         ok_ions = abs(got_dens - n_ions) <= RT_ARG * n_ions
-        ctx.check(ok_all or ok_ions, "cx:arg:total-ion-density", "density argument of BeamCXPEC is neither the sum over all species nor "
-                  "the sum over charged species", monitor="cx_args", got=got_dens, sum_all=n_all, sum_ions=n_ions, receiver=n_r)
+        ctx.check(ok_all or ok_ions, "cx:arg:total-ion-density" + tag, "density argument of BeamCXPEC is neither the sum over all species "
+                  "nor the sum over charged species", monitor=margs, got=got_dens, sum_all=n_all, sum_ions=n_ions, receiver=n_r)
         ctx.skip("total ion density with neutrals present: reading not decided (accepted %s)" % ("all-species" if ok_all else "charged-only" if ok_ions else "neither"))
         n_dens = n_ions if (ok_ions and not ok_all) else n_all
     else:
@@ -790,11 +1104,13 @@ def _judge_cx(case, ctx, ad, st, rcv, n_b, n_r, n_ions, n_all, neutral_density, 
             for j, nm in enumerate(names):
                 if j == 2 and neutral_density > 0:
                     continue
-                ctx.close(args[j], exp_args[j], "cx:arg:" + nm, "BeamCXPEC.evaluate received a %s argument different from the plasma "
-                          "state at the point" % nm, rtol=rtols[j], atol=(1e-300 if j != 4 else 1e-12 * max(Bmag, 1e-30)),
-                          monitor="cx_args", metastable=m, receiver_density=n_r, sum_ions=n_ions, sum_all=n_all)
+                ctx.close(args[j], exp_args[j], "cx:arg:" + nm + tag, "BeamCXPEC.evaluate received a %s argument different from the "
+                          "plasma state at the point of the call" % nm, rtol=rtols[j], atol=(1e-300 if j != 4 else 1e-12 * max(Bmag, 1e-30)),
+                          monitor=margs, metastable=m, receiver_density=n_r, sum_ions=n_ions, sum_all=n_all, seq=J["seq"],
+                          point_kind=kind)
     # population tables
     pop_ret = {}
+    pop_ok = True
     for m in mets:
         if m == 1:
             continue
@@ -805,31 +1121,41 @@ def _judge_cx(case, ctx, ad, st, rcv, n_b, n_r, n_ions, n_all, neutral_density, 
             if s["Z"] < 1:
                 # neutral: null table; its contribution must be zero whatever it was asked
                 continue
-            if not ctx.check(bool(cl), "cx:population-table-not-evaluated", "a BeamPopulationRate of a charged species was never "
-                             "evaluated", monitor="cx_args", metastable=m, species=s["key"]):
-                return
+            if not cl:
+                # a species that is absent at the point contributes nothing whatever its table says: not demanded
+                if s["n"] > 0:
+                    pop_ok = False
+                    ctx.check(False, "cx:population-table-not-evaluated" + tag, "the BeamPopulationRate of a charged species with "
+                              "non-zero density was never evaluated", monitor=margs, metastable=m, species=s["key"], density=s["n"])
+                continue
+            ctx.mon(margs)
             for args, _ in cl:
-                ctx.close(args[0], s["E"], "cx:pop-arg:interaction-energy", "BeamPopulationRate.evaluate received an interaction energy "
-                          "different from the beam-species one", rtol=RT_E, monitor="cx_args", species=s["key"])
-                ctx.close(args[1], z2n / s["Z"], "cx:pop-arg:equivalent-density", "BeamPopulationRate.evaluate received a density "
-                          "different from sum_j Z_j^2 n_j / Z_i", rtol=RT_ARG, monitor="cx_args", species=s["key"], Z=s["Z"])
-                ctx.close(args[2], s["T"], "cx:pop-arg:temperature", "BeamPopulationRate.evaluate received a temperature different "
-                          "from the species temperature", rtol=RT_ARG, monitor="cx_args", species=s["key"])
+                ctx.close(args[0], s["E"], "cx:pop-arg:interaction-energy" + tag, "BeamPopulationRate.evaluate received an interaction "
+                          "energy different from the beam-species one", rtol=RT_E, monitor=margs, species=s["key"], seq=J["seq"])
+                ctx.close(args[1], z2n / s["Z"], "cx:pop-arg:equivalent-density" + tag, "BeamPopulationRate.evaluate received a density "
+                          "different from sum_j Z_j^2 n_j / Z_i", rtol=RT_ARG, monitor=margs, species=s["key"], Z=s["Z"], seq=J["seq"])
+                ctx.close(args[2], s["T"], "cx:pop-arg:temperature" + tag, "BeamPopulationRate.evaluate received a temperature different "
+                          "from the species temperature", rtol=RT_ARG, monitor=margs, species=s["key"], seq=J["seq"])
             num += s["Z"] * s["n"] * cl[-1][1]
         pop_ret[m] = num / zn
+    if total is None:
+        return
+    tot = total
     # ---- totals ------------------------------------------------------------------------------------
-    ctx.close(tot, want, "cx:total", "wavelength-integrated BeamCXLine emission differs from (1/4pi) n_b n_r (q1 + sum k q)/(1 + sum k) "
-              "evaluated from the plasma state", rtol=RT_TOT, monitor="cx_total", n_b=n_b, n_r=n_r, q=info["q"], k=info["k"],
-              point_kind=kind)
+    ctx.close(tot, want, "cx:total" + tag, "wavelength-integrated BeamCXLine emission differs from (1/4pi) n_b n_r (q1 + sum k q)/(1 + sum k) "
+              "evaluated from the plasma state and the tables of the model's current line", rtol=RT_TOT, monitor="cx_total", n_b=n_b,
+              n_r=n_r, q=info["q"], k=info["k"], point_kind=kind, seq=J["seq"])
+    if not pop_ok:
+        return
     qret = {m: calls[m][-1][1] for m in mets}
     num = qret[1] + math.fsum(pop_ret[m] * qret[m] for m in mets if m != 1)
     den = 1.0 + math.fsum(pop_ret[m] for m in mets if m != 1)
-    ctx.close(tot, n_b * n_r * (num / den) / (4 * math.pi), "cx:weighted-mean", "BeamCXLine emission is not (1/4pi) n_b n_r times the "
+    ctx.close(tot, n_b * n_r * (num / den) / (4 * math.pi), "cx:weighted-mean" + tag, "BeamCXLine emission is not (1/4pi) n_b n_r times the "
               "mean of the returned coefficients weighted by 1 (ground) and the relative populations (excited)", rtol=RT_MEAN,
               monitor="cx_mean", q_returned=qret, k=pop_ret)
     q_obs = tot * 4 * math.pi / (n_b * n_r)
     qmin, qmax = min(qret.values()), max(qret.values())
-    ctx.check(qmin * (1 - 1e-9) <= q_obs <= qmax * (1 + 1e-9), "cx:q-outside-[min,max]",
+    ctx.check(qmin * (1 - 1e-9) <= q_obs <= qmax * (1 + 1e-9), "cx:q-outside-[min,max]" + tag,
               "effective coefficient 4pi*emission/(n_b n_r) lies outside [min, max] of the metastable-resolved coefficients",
               monitor="cx_bounds", q=q_obs, qmin=qmin, qmax=qmax)
     if qmax > 0:
@@ -837,29 +1163,46 @@ def _judge_cx(case, ctx, ad, st, rcv, n_b, n_r, n_ions, n_all, neutral_density, 
     ctx.nontrivial()
 
 
-def _judge_bes(case, ctx, ad, st, n_b, z2n, tot, rate_value, kind):
-    decoy_calls = sum(len(d.calls) for d in ad.decoys)
+def _judge_bes_args(J, total=None):
+    case, ctx, ad, cfg, st = J["case"], J["ctx"], J["ad"], J["cfg"], J["st"]
+    n_b, z2n, rate_value, kind = J["n_b"], J["z2n"], J["rate_value"], J["kind"]
+    tag = cfg["tag"]
+    margs = "bes_args" if total is not None else "material_args"
+    decoy_calls = sum(len(d.calls) for d in ad.decoys if d.key[0] == "bes-decoy")
     if decoy_calls:
-        ctx.viol("bes:decoy-table-evaluated", "a table that the provider handed out for a wrong request was evaluated", n=decoy_calls)
+        ctx.viol("bes:decoy-table-evaluated" + tag, "a table that the provider handed out for a wrong request was evaluated", n=decoy_calls)
     acc = 0.0
+    sum_ok = True
     for s in st:
         if s["Z"] < 1:
             continue
         cl = _calls_by(ad.bes_rates.get((s["element"], s["Z"]), []))
-        if not ctx.check(bool(cl), "bes:table-not-evaluated", "the BeamEmissionPEC of a charged species was never evaluated although "
-                         "n_beam > 0", monitor="bes_args", species=s["key"]):
-            return
+        if not cl:
+            # a species that is absent at the point contributes nothing whatever its table says: not demanded
+            if s["n"] > 0:
+                sum_ok = False
+                ctx.check(False, "bes:table-not-evaluated" + tag, "the BeamEmissionPEC of a charged species with non-zero density was "
+                          "never evaluated although n_beam > 0", monitor=margs, species=s["key"], density=s["n"])
+            continue
+        ctx.mon(margs)
         for args, _ in cl:
-            ctx.close(args[0], s["E"], "bes:arg:interaction-energy", "BeamEmissionPEC.evaluate received an interaction energy different "
-                      "from the beam-species one", rtol=RT_E, monitor="bes_args", species=s["key"])
-            ctx.close(args[1], z2n / s["Z"], "bes:arg:equivalent-density", "BeamEmissionPEC.evaluate received a density different from "
-                      "sum_j Z_j^2 n_j / Z_i", rtol=RT_ARG, monitor="bes_args", species=s["key"], Z=s["Z"])
-            ctx.close(args[2], s["T"], "bes:arg:temperature", "BeamEmissionPEC.evaluate received a temperature different from the species "
-                      "temperature", rtol=RT_ARG, monitor="bes_args", species=s["key"])
+            ctx.close(args[0], s["E"], "bes:arg:interaction-energy" + tag, "BeamEmissionPEC.evaluate received an interaction energy "
+                      "different from the beam-species one", rtol=RT_E, monitor=margs, species=s["key"], seq=J["seq"])
+            ctx.close(args[1], z2n / s["Z"], "bes:arg:equivalent-density" + tag, "BeamEmissionPEC.evaluate received a density different "
+                      "from sum_j Z_j^2 n_j / Z_i", rtol=RT_ARG, monitor=margs, species=s["key"], Z=s["Z"], seq=J["seq"])
+            ctx.close(args[2], s["T"], "bes:arg:temperature" + tag, "BeamEmissionPEC.evaluate received a temperature different from the "
+                      "species temperature", rtol=RT_ARG, monitor=margs, species=s["key"], seq=J["seq"])
         acc += s["Z"] * s["n"] * cl[-1][1]
+    if total is None:
+        return
+    tot = total
     want = _bes_oracle(case, st, n_b, z2n, rate_value)
-    ctx.close(tot, want, "bes:total", "wavelength-integrated BeamEmissionLine emission differs from (1/4pi) n_b sum_i Z_i n_i "
-              "q_i(E_int,i, sum_j Z_j^2 n_j / Z_i, T_i)", rtol=RT_TOT, monitor="bes_total", n_b=n_b, point_kind=kind)
-    ctx.close(tot, n_b * acc / (4 * math.pi), "bes:charged-sum", "BeamEmissionLine emission is not (1/4pi) n_b times the Z_i n_i weighted "
-              "sum of the returned coefficients", rtol=RT_MEAN, monitor="bes_sum")
+    ctx.close(tot, want, "bes:total" + tag, "wavelength-integrated BeamEmissionLine emission differs from (1/4pi) n_b sum_i Z_i n_i "
+              "q_i(E_int,i, sum_j Z_j^2 n_j / Z_i, T_i) over the species of the current composition", rtol=RT_TOT, monitor="bes_total",
+              n_b=n_b, point_kind=kind, seq=J["seq"])
+    ctx.nontrivial()
+    if not sum_ok:
+        return
+    ctx.close(tot, n_b * acc / (4 * math.pi), "bes:charged-sum" + tag, "BeamEmissionLine emission is not (1/4pi) n_b times the Z_i n_i "
+              "weighted sum of the returned coefficients", rtol=RT_MEAN, monitor="bes_sum")
     ctx.nontrivial()
